@@ -42,7 +42,7 @@ def wF9 : World :=
   mk [{ causality := vv [1, 0, 0, 0, 0] },
       { operation := some ⟨0, .opaque⟩, causality := vv [1, 1, 0, 0, 0] }] (some 0) objs0
 
-theorem F9_before : (wF9.ths.get 1).state = .runnable false ∧
+theorem F9_before : (wF9.ths.get 1).state = .runnable ∧
     (wF9.ths.get 1).operation = some ⟨wF9.mutexObj 0, .opaque⟩ := by decide
 
 /-- thread 0's `try_lock` succeeds (returns 1) and thread 1 — which only wants to TRY — is set
@@ -62,7 +62,7 @@ def sF9 : SC.St :=
 theorem F9_reference : SC.enabled wF9.prog sF9 1 = true ∧
     SC.opOf wF9.prog sF9 1 = some (.tryLock 0) := by decide
 
-/-! ### F5/F6: `unpark` makes a thread blocked on a mutex / a join runnable -/
+/-! ### F5/F6 (repaired): `unpark` does not wake a thread blocked on a mutex / in a join -/
 
 /-- thread 0 holds the mutex; thread 1 is blocked in `lock` (stage 0 found the mutex held) -/
 def wF5 : World :=
@@ -71,41 +71,84 @@ def wF5 : World :=
     (some 0) [.mutex { lock := some 0 }, .rwlock {}, .condvar {}, .notify { spurious := true },
       .notify { seqCst := true }, .notify { seqCst := true }]
 
-/-- thread 0 calls `unpark` on thread 1: thread 1 becomes runnable although the mutex is still
-held by thread 0 -/
+/-- thread 0 calls `unpark` on thread 1: thread 1 STAYS blocked (the mutex is still held by thread 0) and
+keeps the unpark as a token.  (Before the repair it became runnable and its `lock` panicked with "expected
+to be able to acquire lock".) -/
 theorem F5_unpark :
     (wF5.runOp {} (.unpark 1)).toOption.map
-      (fun w' => ((w'.ths.get 1).state, (w'.getMutex 0).toOption.map (·.lock))) =
-    some (.runnable false, some (some 0)) := by decide +kernel
+      (fun w' => ((w'.ths.get 1).state, (w'.ths.get 1).token, (w'.ths.get 1).parked,
+        (w'.getMutex 0).toOption.map (·.lock))) =
+    some (.blocked, true, false, some (some 0)) := by decide +kernel
 
-/-- … and when thread 1 is then scheduled, its `lock` continues with `post_acquire`, which fails:
-loom panics with "expected to be able to acquire lock" -/
+/-- thread 0 unparks thread 1, then releases the mutex (`release_lock`) -/
+def wF5r : Except Panic World := do
+  let w ← wF5.runOp {} (.unpark 1)
+  w.releaseLock 0
+
+/-- the continuation: thread 0 unparks thread 1, then releases the mutex (`release_lock`): thread 1 is woken
+by the release and still holds the token; scheduled, its `lock` continues with `post_acquire`, which succeeds
+(thread 1 owns the mutex); its next `park` consumes the token and returns without blocking (thread 1 is still
+the active thread, runnable, token gone) -/
+def wF5run : Except Panic World := do
+  let w ← wF5.runOp {} (.unpark 1)
+  let w ← w.releaseLock 0
+  let w := w.setThs { w.ths with active := some 1 }
+  let w ← w.runOp { body := 1, stage := 1 } (.lock 0)
+  w.parkNow
+
+theorem F5_no_panic :
+    wF5r.toOption.map (fun w' => ((w'.ths.get 1).state, (w'.ths.get 1).token)) =
+      some (.runnable, true) ∧
+    wF5run.toOption.map (fun w' => ((w'.ths.get 1).state, (w'.ths.get 1).token, w'.ths.active,
+        (w'.getMutex 0).toOption.map (·.lock))) =
+      some (.runnable, false, some 1, some (some 1)) := by
+  constructor <;> decide +kernel
+
+/-- the state the old defect led to — thread 1 active in the second stage of `lock` although the mutex is
+held by thread 0 — still panics in the model ("expected to be able to acquire lock"); `unpark` no longer
+produces it.  (Also used as an example of a failing `try_lock`, `Lock.tryLock_examples`.) -/
 def wF5' : World :=
   mk [{ causality := vv [3, 0, 0, 0, 0] },
       { operation := some ⟨0, .opaque⟩, causality := vv [3, 1, 0, 0, 0] }]
     (some 1) [.mutex { lock := some 0 }, .rwlock {}, .condvar {}, .notify { spurious := true },
       .notify { seqCst := true }, .notify { seqCst := true }]
 
-theorem F5_panic : (wF5'.runOp { body := 1, stage := 1 } (.lock 0)).toOption.isNone = true ∧
+theorem F5_old_state_panics :
     (match wF5'.runOp { body := 1, stage := 1 } (.lock 0) with
       | .error .expectedLock => true | _ => false) = true := by decide +kernel
 
 /-- thread 0 is blocked in `join 1` (the `JoinHandle`'s notify, object 4, is not notified);
-thread 2 unparks it -/
+thread 2 unparks it: it STAYS blocked and keeps the token (before the repair it became runnable and its
+`join` panicked on `assert!(state.notified)`) -/
 def wF6 : World :=
   mk [{ state := .blocked, operation := some ⟨4, .opaque⟩ }, {}, { causality := vv [1, 0, 1, 0, 0] }]
     (some 2) objs0
 
 theorem F6_unpark :
-    (wF6.runOp { body := 2 } (.unpark 0)).toOption.map (fun w' => (w'.ths.get 0).state) =
-    some (.runnable false) := by decide +kernel
+    (wF6.runOp { body := 2 } (.unpark 0)).toOption.map
+      (fun w' => ((w'.ths.get 0).state, (w'.ths.get 0).token, (w'.ths.get 0).parked)) =
+    some (.blocked, true, false) := by decide +kernel
 
-/-- … and the resumed `join` panics on `assert!(state.notified)` -/
-def wF6' : World :=
+/-- the continuation: thread 1 then exits (`notify` on the `JoinHandle`'s object 4): thread 0 is woken by
+the notification, still with the token, and the resumed `join` succeeds (no `notNotified`) -/
+def wF6run : Except Panic World := do
+  let w ← wF6.runOp { body := 2 } (.unpark 0)
+  let w := w.setThs { w.ths with active := some 1 }
+  let w ← w.notifyEffect 4
+  let w := w.setThs { w.ths with active := some 0 }
+  w.runOp { stage := 1 } (.join 1)
+
+theorem F6_no_panic :
+    wF6run.toOption.map (fun w' => ((w'.ths.get 0).state, (w'.ths.get 0).token,
+      w'.events.head?.map (·.ret))) = some (.runnable, true, some .unit) := by decide +kernel
+
+/-- the state the old defect led to — thread 0 runnable in the second stage of `join 1` although object 4 is
+not notified — still panics in the model (`assert!(state.notified)`); `unpark` no longer produces it -/
+def wF6old : World :=
   mk [{ operation := some ⟨4, .opaque⟩ }, {}, {}] (some 0) objs0
 
-theorem F6_panic :
-    (match wF6'.runOp { stage := 1 } (.join 1) with
+theorem F6_old_state_panics :
+    (match wF6old.runOp { stage := 1 } (.join 1) with
       | .error .notNotified => true | _ => false) = true := by decide +kernel
 
 /-! ### F17: `unpark` raises the target's causality immediately -/
@@ -116,34 +159,66 @@ def wF17 : World :=
 
 theorem F17_unpark :
     ((wF17.ths.unpark 1).get 1).causality = vv [5, 1, 0, 0, 0] ∧
-    ((wF17.ths.unpark 1).get 1).state = .runnable true := by decide +kernel
+    ((wF17.ths.unpark 1).get 1).state = .runnable ∧
+    ((wF17.ths.unpark 1).get 1).token = true := by decide +kernel
 
-/-! ### F18 (repaired): a release keeps a pending unpark token -/
+/-! ### F18 (repaired): no release, and no blocking, loses a pending unpark token -/
 
-/-- thread 1 is runnable WITH a stored token (`runnable true`), its stale `operation` (from an
-earlier `lock`) still names the mutex; thread 0 releases the mutex -/
+/-- thread 1 is runnable WITH a stored token, its stale `operation` (from an earlier `lock`) still names
+the mutex; thread 0 releases the mutex -/
 def wF18 : World :=
   mk [{ causality := vv [2, 0, 0, 0, 0] },
-      { state := .runnable true, operation := some ⟨0, .opaque⟩ }]
+      { token := true, operation := some ⟨0, .opaque⟩ }]
     (some 0) [.mutex { lock := some 0 }, .rwlock {}, .condvar {}, .notify { spurious := true },
       .notify { seqCst := true }, .notify { seqCst := true }]
 
-/-- since the repair of finding F18 (`Thread.wake` touches blocked threads only) the token survives the
-release (it was reset to `runnable false` before) -/
+/-- the token survives the release -/
 theorem F18_token_kept :
-    (wF18.releaseLock 0).toOption.map (fun w' => (w'.ths.get 1).state) =
-    some (.runnable true) := by decide +kernel
+    (wF18.releaseLock 0).toOption.map (fun w' => ((w'.ths.get 1).state, (w'.ths.get 1).token)) =
+    some (.runnable, true) := by decide +kernel
 
-/-- the same state with thread 1 blocked on the mutex: the release wakes it -/
+/-- the same state with thread 1 BLOCKED on the mutex and holding a token (it was unparked while blocked,
+as in `F5_unpark`): the release wakes it, and the token is still there -/
 def wF18b : World :=
   mk [{ causality := vv [2, 0, 0, 0, 0] },
-      { state := .blocked, operation := some ⟨0, .opaque⟩ }]
+      { state := .blocked, token := true, operation := some ⟨0, .opaque⟩ }]
     (some 0) [.mutex { lock := some 0 }, .rwlock {}, .condvar {}, .notify { spurious := true },
       .notify { seqCst := true }, .notify { seqCst := true }]
 
 theorem F18_blocked_woken :
-    (wF18b.releaseLock 0).toOption.map (fun w' => (w'.ths.get 1).state) =
-    some (.runnable false) := by decide +kernel
+    (wF18b.releaseLock 0).toOption.map (fun w' => ((w'.ths.get 1).state, (w'.ths.get 1).token)) =
+    some (.runnable, true) := by decide +kernel
+
+/-- a token stored BEFORE blocking survives the blocking: thread 1 (active, token stored, the mutex held by
+thread 0) runs the first stage of `lock`: it is blocked on the mutex — not parked — and keeps the token -/
+def wF18c : World :=
+  mk [{ causality := vv [2, 0, 0, 0, 0] }, { token := true, causality := vv [1, 1, 0, 0, 0] }]
+    (some 1) [.mutex { lock := some 0 }, .rwlock {}, .condvar {}, .notify { spurious := true },
+      .notify { seqCst := true }, .notify { seqCst := true }]
+
+theorem F18_token_survives_blocking :
+    (wF18c.runOp { body := 1 } (.lock 0)).toOption.map
+      (fun w' => ((w'.ths.get 1).state, (w'.ths.get 1).token, (w'.ths.get 1).parked, w'.ths.active)) =
+    some (.blocked, true, false, some 0) := by decide +kernel
+
+/-! ### park / unpark -/
+
+/-- thread 1 is blocked in `park` (`parked`); thread 0 unparks it: it is woken, no token is stored -/
+def wPark : World :=
+  mk [{ causality := vv [2, 0, 0, 0, 0] },
+      { state := .blocked, parked := true, causality := vv [1, 1, 0, 0, 0] }] (some 0) objs0
+
+theorem park_unpark_wakes :
+    (wPark.runOp {} (.unpark 1)).toOption.map
+      (fun w' => ((w'.ths.get 1).state, (w'.ths.get 1).token, (w'.ths.get 1).parked,
+        (w'.ths.get 1).causality)) =
+    some (.runnable, false, false, vv [2, 1, 0, 0, 0]) := by decide +kernel
+
+/-- `park` without a token: the active thread 0 is blocked in `park`, thread 1 runs -/
+theorem park_blocks :
+    (wF17.parkNow).toOption.map
+      (fun w' => ((w'.ths.get 0).state, (w'.ths.get 0).parked, (w'.ths.get 0).token, w'.ths.active)) =
+    some (.blocked, true, false, some 1) := by decide +kernel
 
 end Ex
 end LoomVerif
